@@ -83,9 +83,9 @@ pub fn run(ctx: &Ctx) -> i32 {
     };
     let acc = sweep(ctx, &alpha, 2, &deep, &check);
     let meta = Meta {
-        rule: "every macro program of depth <= 2 on 19 specs (thorough: <= 3 on 4 specs) x 14 transaction variants, run without an inspector and with NoOpInspector, GasInspector and TracerEip3155; distinct = distinct (spec, class, reason, gas, refund, logs)".into(),
+        rule: "every macro program of depth <= 2 on 19 specs (thorough: <= 3 on 4 specs) x 15 transaction variants, run without an inspector and with NoOpInspector, GasInspector and TracerEip3155; distinct = distinct (spec, class, reason, gas, refund, logs)".into(),
         assumptions: vec!["comparison is full equality of ResultAndState (result, logs, every account's info, status and storage slots)".into()],
-        bounds: json!({"depth": 2, "macros": alpha.len(), "tx_variants": 14, "inspectors": 3}),
+        bounds: json!({"depth": 2, "macros": alpha.len(), "tx_variants": 15, "inspectors": 3}),
         min_distinct: 300,
         exhaustive: true,
         explanation: "differential oracle: no reference needed".into(),
